@@ -205,6 +205,61 @@ def float_field(rel, arr):
     return realise(arr, sx['model'], sx['fd'], sx['axes'])
 
 
+class WatchDict(dict):
+    """rel.data replacement that keeps a shallow snapshot of every array at the moment it is stored, so that later
+    in-place modification of a cached entry (by any body or helper that got hold of the array) can be detected:
+    changed() -> [(key, index, element at caching time, element now)]"""
+
+    def __init__(self, *a, **k):
+        super().__init__(*a, **k)
+        self._snap = {}
+        for key, v in self.items():
+            self._take(key, v)
+
+    def _take(self, key, v):
+        if isinstance(v, np.ndarray):
+            self._snap[key] = v.copy()
+        else:
+            self._snap.pop(key, None)
+
+    def __setitem__(self, key, v):
+        super().__setitem__(key, v)
+        self._take(key, v)
+
+    def update(self, *a, **k):
+        super().update(*a, **k)
+        for key, v in dict(*a, **k).items():
+            self._take(key, v)
+
+    def __delitem__(self, key):
+        super().__delitem__(key)
+        self._snap.pop(key, None)
+
+    def pop(self, key, *d):
+        self._snap.pop(key, None)
+        return super().pop(key, *d)
+
+    def changed(self):
+        out = []
+        for key, snap in self._snap.items():
+            v = self.get(key)
+            if not isinstance(v, np.ndarray) or v.shape != snap.shape:
+                continue
+            if v.dtype == object:
+                for idx in np.ndindex(*v.shape):
+                    if v[idx] is not snap[idx]:
+                        out.append((key, idx, snap[idx], v[idx]))
+            else:
+                for idx in zip(*np.nonzero(v != snap)):
+                    out.append((key, tuple(int(i) for i in idx), snap[idx], v[idx]))
+        return out
+
+
+def watch(rel):
+    rel.data = WatchDict(rel.data)
+    return rel
+
+
 def center(a):
     a = np.asarray(a)
     n = a.shape[-1] // 2
